@@ -64,7 +64,7 @@ def cases(tier, seed):
   for i in range(n):
     r = rng_for('c11', seed, i)
     name = 'ITML_Supervised' if i % 4 == 3 else 'ITML'
-    mode = ['explicit', 'default', 'explicit', 'satisfied', 'explicit',
+    mode = ['explicit', 'default', 'explicit', 'satisfied', 'euclid',
             'default'][i % 6]
     if name == 'ITML_Supervised' and mode == 'satisfied':
       mode = 'explicit'
@@ -141,6 +141,12 @@ def run_case(spec, j):
       u, lo = int(max(1, round(u))), int(max(1, round(lo)))
     kwargs['bounds'] = [np.array([u, lo]), [u, lo], (u, lo)][
         spec['ds']['seed'] % 3]
+  elif spec['mode'] == 'euclid':
+    # bounds that every pair meets in the *Euclidean* metric; whether they
+    # hold under the prior is another matter (feasibility is about the prior)
+    e0 = np.einsum('ij,ij->i', V, V)
+    kwargs['bounds'] = np.array([e0[lab == 1].max() * 1.1,
+                                 e0[lab == -1].min() * 0.9])
   elif spec['mode'] == 'satisfied':
     kwargs['bounds'] = np.array([q0[lab == 1].max() * 1.25,
                                  q0[lab == -1].min() * 0.8])
